@@ -264,9 +264,12 @@ func (hn *harness) prepare(def *dagDef, prior bool, idx int) (*group, error) {
 			return nil, fmt.Errorf("scenario not deterministic: the baselines of %s disagree on the calls they make (kind x file class, agent-log and status writes aside):\n%s", def.Name, strings.Join(seqs, "\n"))
 		}
 	}
-	if g.classes["create(history)"] != 1 || g.classes["bind(socket)"] != 1 || g.classes["listen(socket)"] != 1 ||
-		g.classes["create(history-compacted)"] != 1 || g.classes["unlink(history)"] != 1 || g.classes["unlink(socket)"] < 2 {
-		return nil, fmt.Errorf("baseline of %s does not show the expected life cycle (history create, socket bind/listen/unlink, compaction): %v", def.Name, g.classes)
+	if g.classes["create(history)"] != 1 || g.classes["bind(socket)"] != 1 || g.classes["listen(socket)"] != 1 || g.classes["unlink(socket)"] < 2 {
+		return nil, fmt.Errorf("baseline of %s does not show the expected life cycle (history create, socket bind/listen/unlink): %v", def.Name, g.classes)
+	}
+	if g.classes["create(history-compacted)"] != 1 || g.classes["unlink(history)"] != 1 {
+		// no compaction at the end of the run: not what the property is about (the final-truth checks decide), but worth a counter
+		hn.res.Count("baselines_without_compaction:"+def.Name, 1)
 	}
 	hn.res.Validated++
 	return g, nil
